@@ -96,10 +96,59 @@ let parse_obs (s : string) : out list =
   if starts_with s "OBS " then List.map parse_out (items '|' (String.sub s 4 (String.length s - 4)))
   else failwith "obs"
 
+(* ---------------------------------------------------------------- C20 input / output *)
+let parse_bcall (s : string) : bcall =
+  match split_on ':' s with
+  | [ "B"; ty ] -> BBrowse (bytes_of_hex ty)
+  | [ "SB"; ty ] -> BStopBrowse (bytes_of_hex ty)
+  | [ "R"; h; t ] -> BResolveHost (bytes_of_hex h, (if t = "~" then None else Some (n_of_dec t)))
+  | [ "S"; h ] -> BStopHost (bytes_of_hex h)
+  | [ "M" ] -> BMetrics
+  | [ "I"; ms ] -> BSetIpInterval (n_of_dec ms)
+  | _ -> failwith "bcall"
+
+let parse_brec (s : string) : brec =
+  match split_on '.' s with
+  | [ sec; ty; nm; cls; fl; ttl; data; target ] ->
+    { br_ans = (sec = "a"); br_ty = n_of_dec ty; br_name = bytes_of_hex nm; br_class = n_of_dec cls;
+      br_flush = (fl = "1"); br_ttl = n_of_dec ttl; br_data = bytes_of_hex data; br_target = bytes_of_hex target }
+  | _ -> failwith "brec"
+
+let parse_bmsg (s : string) : bmsg =
+  match String.index_opt s ':' with
+  | None -> failwith "bmsg"
+  | Some i ->
+    let ifx = String.sub s 0 i and rest = String.sub s (i + 1) (String.length s - i - 1) in
+    { bm_if = n_of_dec ifx; bm_recs = List.map parse_brec (items '/' rest) }
+
+let parse_biter (s : string) : biter =
+  match split_on ';' s with
+  | [ now; calls; msgs ] ->
+    { bi_now = n_of_dec now; bi_calls = List.map parse_bcall (items ',' calls);
+      bi_msgs = List.map parse_bmsg (items ',' msgs) }
+  | _ -> failwith "biter"
+
+(* "t0#it|it|..." *)
+let parse_hist20 (s : string) : n * biter list =
+  match split_on '#' s with
+  | [ t0; its ] -> (n_of_dec t0, List.map parse_biter (items '|' its))
+  | _ -> failwith "hist20"
+
+let string_of_sample (now : n) (m : sample) : string =
+  Printf.sprintf "%s:%s,%s,%s,%s,%s,%s,%s" (dec_of_n now) (dec_of_n m.m_ptr) (dec_of_n m.m_srv) (dec_of_n m.m_txt)
+    (dec_of_n m.m_addr) (dec_of_n m.m_nsec) (dec_of_n m.m_sub) (dec_of_n m.m_timer)
+
+let string_of_samples (h : biter list) (outs : sample list list) : string =
+  let l = List.concat (List.map2 (fun i o -> List.map (string_of_sample i.bi_now) o) h outs) in
+  "MET " ^ (if l = [] then "-" else String.concat "|" l)
+
 (* ---------------------------------------------------------------- cases *)
 let run_case (line : string) : string =
   match split_on ' ' line with
   | [ "hr17"; h ] -> string_of_obs (observe (run (List.map fst (parse_hist17 h))))
+  | [ "hr20"; h ] ->
+    let (t0, its) = parse_hist20 h in
+    string_of_samples its (b20_run PCode t0 its)
   | _ -> "BADCASE"
 
 (* C17: chk_C17 (extracted) on the implementation's trace; the wake-up requests against the
@@ -129,9 +178,63 @@ let mon_c17 (case : string list) (result : string) : string =
     else "FAIL trace is not what the property prescribes: " ^ first_diff (sp_run h) obs
   | _ -> "BADCASE"
 
+(* C20: chk_C20 (extracted) on the implementation's get_metrics samples.  A rejection is
+   attributed to the registered classes only when the samples are exactly what the model of
+   the code predicts *)
+let parse_sample (s : string) : sample =
+  match split_on ':' s with
+  | [ _; v ] ->
+    (match List.map n_of_dec (split_on ',' v) with
+     | [ a; b; c; d; e; f; g ] ->
+       { m_ptr = a; m_srv = b; m_txt = c; m_addr = d; m_nsec = e; m_sub = f; m_timer = g; m_sub_live = N0; m_timer_allow = N0 }
+     | _ -> failwith "sample")
+  | _ -> failwith "sample"
+
+let rec split_counts (counts : int list) (l : 'a list) : 'a list list =
+  match counts with
+  | [] -> if l = [] then [] else failwith "more samples than get_metrics calls"
+  | c :: rest ->
+    let rec take k l acc = if k = 0 then (List.rev acc, l) else
+        (match l with x :: t -> take (k - 1) t (x :: acc) | [] -> failwith "fewer samples than get_metrics calls") in
+    let (a, b) = take c l [] in
+    a :: split_counts rest b
+
+let mon_c20 (case : string list) (result : string) : string =
+  match case with
+  | [ "hr20"; hs ] ->
+    if not (starts_with result "MET ") then "FAIL no samples: " ^ result else
+    let body = String.sub result 4 (String.length result - 4) in
+    if List.exists (fun x -> not (String.contains x ',')) (items '|' body) then "FAIL daemon stuck or trace truncated: " ^ result else
+    let (t0, h) = parse_hist20 hs in
+    if not (b20_times_ok t0 h) then "PASS outside-quantifier" else
+    let flat = List.map parse_sample (items '|' body) in
+    let counts = List.map (fun i -> List.length (List.filter (fun c -> c = BMetrics) i.bi_calls)) h in
+    let obs = split_counts counts flat in
+    if b20_chk t0 h obs then "PASS"
+    else begin
+      let tags = (if b20_chk_cache t0 h obs then [] else [ "unneeded" ])
+                 @ (if b20_chk_sub t0 h obs then [] else [ "subtype" ])
+                 @ (if b20_chk_timers t0 h obs then [] else [ "timers" ]) in
+      (* first sample that breaks an allowance: observed numbers, need-run numbers, allowances *)
+      let needs = List.concat (b20_run PNeed t0 h) and times = List.concat (List.map2 (fun i c -> List.init c (fun _ -> i.bi_now)) h counts) in
+      let rec first ns os ts = match ns, os, ts with
+        | n :: ns', o :: os', t :: ts' ->
+          if N.leb o.m_ptr n.m_ptr && N.leb o.m_srv n.m_srv && N.leb o.m_txt n.m_txt && N.leb o.m_addr n.m_addr
+             && N.leb o.m_nsec n.m_nsec && N.leb o.m_sub n.m_sub_live && N.leb o.m_timer n.m_timer_allow
+          then first ns' os' ts'
+          else Printf.sprintf "at %s observed %s need-run %s allowed subtype<=%s timer<=%s" (dec_of_n t)
+              (string_of_sample t o) (string_of_sample t n) (dec_of_n n.m_sub_live) (dec_of_n n.m_timer_allow)
+        | _ -> "?" in
+      let detail = first needs flat times in
+      if b20_predicted t0 h obs then Printf.sprintf "FAIL[%s] %s" (String.concat "," tags) detail
+      else Printf.sprintf "FAIL unexplained (%s) %s" (String.concat "," tags) detail
+    end
+  | _ -> "BADCASE"
+
 let run_monitor (id : string) (case : string list) (result : string) : string =
   match id with
   | "C17" -> mon_c17 case result
+  | "C20" -> mon_c20 case result
   | _ -> "BADCASE"
 
 let () = main_loop run_case run_monitor
